@@ -134,8 +134,33 @@ fn window(s: &[u8]) -> &[u8] { match s.iter().position(|&b| b == 13) { Some(cr) 
 pub fn oracle_v1_bytes(s: &[u8]) -> V1Out {
     if !s.contains(&13) && s.len() >= 107 { return V1Out::Reject("HeaderTooLong".into()); }
     let w = window(s);
-    if std::str::from_utf8(w).is_err() { return V1Out::InvalidUtf8; }
+    if std::str::from_utf8(w).is_err() {
+        // spec_v1.rs entry_verdict_bytes: a character cut short by the end of a line whose CR has not arrived yet
+        // (some continuation makes the input valid UTF-8): the verdict of the longest valid prefix
+        if !s.contains(&13) && utf8_truncated(s) {
+            let v = (0..=s.len()).rev().find(|&v| std::str::from_utf8(&s[..v]).is_ok()).unwrap_or(0);
+            return match header_verdict(&s[..v]) { Ok(a) => V1Out::Accept(a, s[..v].to_vec()), Err(k) => V1Out::Reject(k.into()) };
+        }
+        return V1Out::InvalidUtf8;
+    }
     match header_verdict(w) { Ok(a) => V1Out::Accept(a, w.to_vec()), Err(k) => V1Out::Reject(k.into()) }
+}
+/// prelude.rs utf8_truncated, by definition: invalid, and some continuation (at most 3 bytes can complete a character)
+/// makes it valid.  Independent of `Utf8Error`.
+pub fn utf8_truncated(s: &[u8]) -> bool {
+    if std::str::from_utf8(s).is_ok() { return false; }
+    let cont = [0x80u8, 0x90, 0xa0, 0xbf];      // one representative of every range a continuation byte is checked against
+    let mut b = s.to_vec();
+    for n in 1..=3usize {
+        let mut idx = vec![0usize; n];
+        loop {
+            b.truncate(s.len()); for &i in &idx { b.push(cont[i]); }
+            if std::str::from_utf8(&b).is_ok() { return true; }
+            let mut p = 0; loop { if p == n { break; } idx[p] += 1; if idx[p] < cont.len() { break; } idx[p] = 0; p += 1; }
+            if p == n { break; }
+        }
+    }
+    false
 }
 pub fn oracle_v1_str(s: &str) -> V1Out {
     let b = s.as_bytes();
